@@ -321,6 +321,7 @@ func c01CaseCut(ts []c01StrTest, m string) *cut {
 // whose answer for m cannot be determined are reported in undecided.
 func c01CaseCutP(fn *ssa.Function, ts []c01StrTest, m string, isSubj func(v ssa.Value) bool) (k *cut, undecided []string) {
 	k = c01CaseCut(ts, m)
+	c01TableCut(fn, m, isSubj, k)
 	for _, i := range Ifs(fn) {
 		cond, t, f := ifEdges(i)
 		call, ok := cond.(*ssa.Call)
@@ -331,21 +332,22 @@ func c01CaseCutP(fn *ssa.Function, ts []c01StrTest, m string, isSubj func(v ssa.
 		if g == nil || !inModule(g) || len(g.Blocks) == 0 || g.Signature.Results().Len() != 1 {
 			continue
 		}
-		gt := c01PredicateTests(call, isSubj)
-		if len(gt) == 0 {
+		gt, gSubj, relevant := c01PredicateInfo(call, isSubj)
+		if !relevant || (len(gt) == 0 && len(c01DispatchConsts(g, gSubj)) == 0) {
 			continue // not a media-type predicate
 		}
 		gk := c01CaseCut(gt, m)
+		c01TableCut(g, m, gSubj, gk)
 		canTrue, canFalse, other := false, false, false
 		for _, r := range Returns(g) {
 			if !c01Feasible(r, gk) {
 				continue
 			}
-			kc, isConst := r.Results[0].(*ssa.Const)
+			val, known := c01BoolUnder(r.Results[0], m, gSubj)
 			switch {
-			case !isConst:
+			case !known:
 				other = true
-			case boolConst(kc):
+			case val:
 				canTrue = true
 			default:
 				canFalse = true
@@ -367,9 +369,22 @@ func c01CaseCutP(fn *ssa.Function, ts []c01StrTest, m string, isSubj func(v ssa.
 // descriptor or its media type; returns g's own comparisons of that media type
 // with constants (empty when g is not such a predicate).
 func c01PredicateTests(call *ssa.Call, isSubj func(v ssa.Value) bool) []c01StrTest {
+	ts, gSubj, relevant := c01PredicateInfo(call, isSubj)
+	if relevant && len(ts) == 0 {
+		// a table-driven predicate: report pseudo tests so that callers see it as a media-type predicate
+		for _, k := range c01DispatchConsts(StaticCallee(call), gSubj) {
+			ts = append(ts, c01StrTest{Const: k})
+		}
+	}
+	return ts
+}
+
+// c01PredicateInfo: g's comparisons of the media type it receives, the subject
+// predicate inside g, and whether g receives a descriptor / media type at all.
+func c01PredicateInfo(call *ssa.Call, isSubj func(v ssa.Value) bool) ([]c01StrTest, func(v ssa.Value) bool, bool) {
 	g := StaticCallee(call)
 	if g == nil || !inModule(g) || len(g.Blocks) == 0 {
-		return nil
+		return nil, isSubj, false
 	}
 	subj := isSubj
 	relevant := false
@@ -397,9 +412,9 @@ func c01PredicateTests(call *ssa.Call, isSubj func(v ssa.Value) bool) []c01StrTe
 		}
 	}
 	if !relevant {
-		return nil
+		return nil, subj, false
 	}
-	return c01StrTests(g, subj)
+	return c01StrTests(g, subj), subj, true
 }
 
 // c01EmptyStrEdges: edges on which a string x with match(x) is known to be
@@ -855,7 +870,18 @@ func c01CarriedSources(p *Prog, v ssa.Value) (srcs []ssa.Value, ok bool) {
 			}
 		} else if _, isParam := base.(*ssa.Parameter); !isParam {
 			if _, isFV := base.(*ssa.FreeVar); !isFV {
-				return nil, false
+				// a value receiver / struct parameter spilled into a local copy
+				a, isAlloc := base.(*ssa.Alloc)
+				if !isAlloc {
+					return nil, false
+				}
+				ss := storesTo(a)
+				if len(ss) != 1 {
+					return nil, false
+				}
+				if _, isP := ss[0].Val.(*ssa.Parameter); !isP {
+					return nil, false
+				}
 			}
 		}
 		fv := path.last()
@@ -950,15 +976,57 @@ func c01HookHelper(h *ssa.Function, pi int) bool {
 // call through the field value itself, or a call of a nil-safe hook helper
 // (c01HookHelper) that receives the field value.  nilSafe[i] tells whether the
 // site already handles a nil callback.
-func c01CallbackSites(fn *ssa.Function, fv *types.Var) (sites []ssa.CallInstruction, nilSafe []bool) {
-	isField := func(v ssa.Value) bool {
-		for _, r := range Roots(v) {
-			if !c01IsFieldValue(r, fv) {
-				return false
+// c01P is the program of the current run (set by the Run functions); used by
+// helpers that have to scan the package for stores into carrier fields.
+var c01P *Prog
+
+// c01IsCallbackValue: v is the option callback fv — read from the option field
+// itself, or from a captured variable / state-struct field that was filled
+// from the option field.
+func c01IsCallbackValue(v ssa.Value, fv *types.Var) bool {
+	rs := Roots(v)
+	if len(rs) == 0 {
+		return false
+	}
+	for _, r := range rs {
+		if c01IsFieldValue(r, fv) {
+			continue
+		}
+		if c01P == nil {
+			return false
+		}
+		srcs, ok := c01CarriedSources(c01P, r)
+		if !ok {
+			return false
+		}
+		for _, sv := range srcs {
+			for _, r2 := range Roots(sv) {
+				if !c01IsFieldValue(r2, fv) {
+					return false
+				}
 			}
 		}
-		return true
 	}
+	return true
+}
+
+// c01CallbackValues: every value in fn denoting the option callback fv.
+func c01CallbackValues(fn *ssa.Function, fv *types.Var) map[ssa.Value]bool {
+	out := map[ssa.Value]bool{}
+	AllInstrs(fn, func(in ssa.Instruction) {
+		v, ok := in.(ssa.Value)
+		if !ok {
+			return
+		}
+		if _, isSig := v.Type().Underlying().(*types.Signature); isSig && c01IsCallbackValue(v, fv) {
+			out[v] = true
+		}
+	})
+	return out
+}
+
+func c01CallbackSites(fn *ssa.Function, fv *types.Var) (sites []ssa.CallInstruction, nilSafe []bool) {
+	isField := func(v ssa.Value) bool { return c01IsCallbackValue(v, fv) }
 	for _, call := range Calls(fn, func(string) bool { return true }) {
 		if _, isDefer := call.(*ssa.Defer); isDefer {
 			continue
@@ -1283,4 +1351,231 @@ func c01ReachPS(fromB *ssa.BasicBlock, fromIdx int, pred *ssa.BasicBlock, to ssa
 		return false
 	}
 	return scan(fromB, pred, fromIdx)
+}
+
+// ---------- constant tables (map / slice literals, package-level or local) ----------
+
+// c01Table is a literal lookup table keyed by string constants.
+type c01Table struct {
+	Keys []string
+	Vals map[string]ssa.Value // nil entries for slices (membership only)
+}
+
+// c01TableOf resolves a map[string]T or []string value to the literal it was
+// built from: a local literal, or a package-level variable initialised in the
+// package's init with a literal and never assigned elsewhere.
+func c01TableOf(v ssa.Value) (*c01Table, bool) {
+	v = strip(v)
+	if ld, ok := v.(*ssa.UnOp); ok && ld.Op == token.MUL {
+		g, isGlobal := ld.X.(*ssa.Global)
+		if !isGlobal || g.Pkg == nil {
+			return nil, false
+		}
+		init := g.Pkg.Func("init")
+		if init == nil {
+			return nil, false
+		}
+		var src ssa.Value
+		n := 0
+		AllInstrs(init, func(in ssa.Instruction) {
+			if st, ok := in.(*ssa.Store); ok && st.Addr == ssa.Value(g) {
+				src = st.Val
+				n++
+			}
+		})
+		if n != 1 {
+			return nil, false
+		}
+		// no other function may store to the variable
+		for _, m := range g.Pkg.Members {
+			if fn, isFn := m.(*ssa.Function); isFn && fn != init {
+				bad := false
+				var scan func(f *ssa.Function)
+				scan = func(f *ssa.Function) {
+					AllInstrs(f, func(in ssa.Instruction) {
+						if st, ok := in.(*ssa.Store); ok && st.Addr == ssa.Value(g) {
+							bad = true
+						}
+					})
+					for _, a := range f.AnonFuncs {
+						scan(a)
+					}
+				}
+				scan(fn)
+				if bad {
+					return nil, false
+				}
+			}
+		}
+		return c01TableOf(src)
+	}
+	t := &c01Table{Vals: map[string]ssa.Value{}}
+	switch u := v.(type) {
+	case *ssa.MakeMap:
+		for _, r := range *u.Referrers() {
+			switch x := r.(type) {
+			case *ssa.MapUpdate:
+				if x.Map != ssa.Value(u) {
+					continue
+				}
+				k, ok := constString(x.Key)
+				if !ok {
+					return nil, false
+				}
+				t.Keys = append(t.Keys, k)
+				t.Vals[k] = x.Value
+			}
+		}
+		sort.Strings(t.Keys)
+		return t, len(t.Keys) > 0
+	case *ssa.Slice:
+		arr, ok := u.X.(*ssa.Alloc)
+		if !ok {
+			return nil, false
+		}
+		for _, r := range *arr.Referrers() {
+			ia, ok := r.(*ssa.IndexAddr)
+			if !ok {
+				continue
+			}
+			for _, r2 := range *ia.Referrers() {
+				if st, ok := r2.(*ssa.Store); ok && st.Addr == ssa.Value(ia) {
+					k, isStr := constString(st.Val)
+					if !isStr {
+						return nil, false
+					}
+					t.Keys = append(t.Keys, k)
+					t.Vals[k] = nil
+				}
+			}
+		}
+		sort.Strings(t.Keys)
+		return t, len(t.Keys) > 0
+	}
+	return nil, false
+}
+
+// c01Membership describes a value that answers "is the subject in table T":
+// T[subj] (map[string]bool), the ok of `_, ok := T[subj]`, or slices.Contains(T, subj).
+// member(m) tells the answer for media type m.
+func c01Membership(v ssa.Value, isSubj func(v ssa.Value) bool) (member func(m string) bool, keys []string, ok bool) {
+	subjOK := func(x ssa.Value) bool {
+		for _, r := range Roots(x) {
+			if !isSubj(r) {
+				return false
+			}
+		}
+		return true
+	}
+	switch u := v.(type) {
+	case *ssa.Lookup:
+		if u.CommaOk || !subjOK(u.Index) {
+			return nil, nil, false
+		}
+		t, okT := c01TableOf(u.X)
+		if !okT {
+			return nil, nil, false
+		}
+		var ks []string
+		for _, k := range t.Keys {
+			if c, isC := t.Vals[k].(*ssa.Const); isC && c.Value != nil && boolConst(c) {
+				ks = append(ks, k)
+			}
+		}
+		return func(m string) bool {
+			c, isC := t.Vals[m].(*ssa.Const)
+			return isC && c.Value != nil && boolConst(c)
+		}, ks, true
+	case *ssa.Extract:
+		lk, isLk := u.Tuple.(*ssa.Lookup)
+		if !isLk || !lk.CommaOk || u.Index != 1 || !subjOK(lk.Index) {
+			return nil, nil, false
+		}
+		t, okT := c01TableOf(lk.X)
+		if !okT {
+			return nil, nil, false
+		}
+		return func(m string) bool { _, in := t.Vals[m]; return in }, t.Keys, true
+	case *ssa.Call:
+		if CalleeName(u) != "slices.Contains" || len(u.Call.Args) != 2 || !subjOK(u.Call.Args[1]) {
+			return nil, nil, false
+		}
+		t, okT := c01TableOf(u.Call.Args[0])
+		if !okT {
+			return nil, nil, false
+		}
+		return func(m string) bool { _, in := t.Vals[m]; return in }, t.Keys, true
+	}
+	return nil, nil, false
+}
+
+// c01TableCut adds to k the branch edges that cannot be taken when the subject
+// equals m, for Ifs deciding on a table membership of the subject.
+func c01TableCut(fn *ssa.Function, m string, isSubj func(v ssa.Value) bool, k *cut) {
+	for _, i := range Ifs(fn) {
+		cond, t, f := ifEdges(i)
+		var member func(string) bool
+		for _, r := range Roots(cond) {
+			if mf, _, ok := c01Membership(r, isSubj); ok {
+				member = mf
+			}
+		}
+		if member == nil {
+			continue
+		}
+		if member(m) {
+			k.Edges(f)
+		} else {
+			k.Edges(t)
+		}
+	}
+}
+
+// c01DispatchConsts: the media types fn distinguishes — constants the subject
+// is compared with, and keys of tables it is looked up in.
+func c01DispatchConsts(fn *ssa.Function, isSubj func(v ssa.Value) bool) []string {
+	set := map[string]bool{}
+	for _, c := range c01TestConsts(c01StrTests(fn, isSubj)) {
+		set[c] = true
+	}
+	AllInstrs(fn, func(in ssa.Instruction) {
+		if v, ok := in.(ssa.Value); ok {
+			if _, ks, ok := c01Membership(v, isSubj); ok {
+				for _, k := range ks {
+					set[k] = true
+				}
+			}
+			if lk, isLk := v.(*ssa.Lookup); isLk && lk.CommaOk {
+				okSubj := true
+				for _, r := range Roots(lk.Index) {
+					if !isSubj(r) {
+						okSubj = false
+					}
+				}
+				if t, okT := c01TableOf(lk.X); okT && okSubj {
+					for _, k := range t.Keys {
+						set[k] = true
+					}
+				}
+			}
+		}
+	})
+	var out []string
+	for s := range set {
+		out = append(out, s)
+	}
+	sort.Strings(out)
+	return out
+}
+
+// c01BoolUnder: the boolean v under the assumption subject == m, when it is a
+// constant or a table membership.
+func c01BoolUnder(v ssa.Value, m string, isSubj func(v ssa.Value) bool) (val, known bool) {
+	if k, ok := v.(*ssa.Const); ok && k.Value != nil {
+		return boolConst(k), true
+	}
+	if mf, _, ok := c01Membership(v, isSubj); ok {
+		return mf(m), true
+	}
+	return false, false
 }
